@@ -12,7 +12,7 @@ from __future__ import annotations
 from .model import MNode, MTree, apply_filter_inplace, model_filter
 from .world import InjectedFault, World
 
-OK, REFUSE, EXCLUDED, SKIP = "OK", "REFUSE", "EXCLUDED", "SKIP"
+OK, REFUSE, EXCLUDED, SKIP, NOCHANGE = "OK", "REFUSE", "EXCLUDED", "SKIP", "NOCHANGE"
 
 UNIQUE = ("UniqueConstraintError",)
 AMBIG = ("AmbiguousMatchError",)
@@ -334,7 +334,16 @@ def plan_move(w: World, op: dict) -> Plan:
         if tm is nm or tm.is_descendant_of(nm):
             reasons.append("into-own-branch")
         if isinstance(before, dict) and before["node"] == op["node"]:
-            return Plan(EXCLUDED, why="before=self")
+            if tm is not nm.parent or mt.typed:
+                reasons.append("before-not-a-child")
+            else:
+                # "move the node before itself": refusing it or doing nothing are
+                # both acceptable, changing the tree is not
+                def call_self():
+                    return rn.move_to(rt, before=rn)
+
+                return Plan(NOCHANGE, why="before=self", call=call_self,
+                            trigger="move/before=self", slots=(si,))
         if tm is nm.parent and isinstance(before, int) and not isinstance(before, bool):
             return Plan(EXCLUDED, why="same-parent move with int index")
         st, pos, real_before = resolve_before(w, before, tm)
